@@ -215,6 +215,39 @@ impl Store {
             };
             Some(show_entries(r))
          },
+         // `RelIndexRead::is_empty` ("definitely empty": generated code skips a rule when it answers true)
+         "empty" => {
+            let r = std::panic::catch_unwind(std::panic::AssertUnwindSafe(|| match self.objs.get(&id(1)?)? {
+               Obj::Rel(m) => Some(RelIndexRead::is_empty(m)),
+               Obj::Full(m) => Some(RelIndexRead::is_empty(m)),
+               Obj::Lat(m) => Some(RelIndexRead::is_empty(m)),
+               Obj::CRel(m) => Some(RelIndexRead::is_empty(m)),
+               Obj::CFull(m) => Some(RelIndexRead::is_empty(m)),
+               Obj::CLat(m) => Some(RelIndexRead::is_empty(m)),
+               _ => None,
+            }));
+            match r {
+               Ok(Some(b)) => Some(b.to_string()),
+               Ok(None) => None,
+               Err(_) => Some("panic".into()),
+            }
+         },
+         "combempty" => {
+            let (a, b) = (self.objs.get(&id(1)?)?, self.objs.get(&id(2)?)?);
+            let r = std::panic::catch_unwind(std::panic::AssertUnwindSafe(|| match (a, b) {
+               (Obj::Rel(x), Obj::Rel(y)) => Some(RelIndexRead::is_empty(&RelIndexCombined::new(x, y))),
+               (Obj::Full(x), Obj::Full(y)) => Some(RelIndexRead::is_empty(&RelIndexCombined::new(x, y))),
+               (Obj::Lat(x), Obj::Lat(y)) => Some(RelIndexRead::is_empty(&RelIndexCombined::new(x, y))),
+               (Obj::CRel(x), Obj::CRel(y)) => Some(RelIndexRead::is_empty(&RelIndexCombined::new(x, y))),
+               (Obj::CFull(x), Obj::CFull(y)) => Some(RelIndexRead::is_empty(&RelIndexCombined::new(x, y))),
+               _ => None,
+            }));
+            match r {
+               Ok(Some(b)) => Some(b.to_string()),
+               Ok(None) => None,
+               Err(_) => Some("panic".into()),
+            }
+         },
          // combined (total + delta) view
          "comb" | "comball" => {
             let (a, b) = (self.objs.get(&id(1)?)?, self.objs.get(&id(2)?)?);
